@@ -19,6 +19,7 @@ BODIES = {
     "sending": "while True: channel.send(b'x' * 1000000)",
     "cbdropped": "c = channel.gateway.newchannel()\nc.setcallback(lambda x: None)\nchannel.send(c)\ndel c\nchannel.receive()",
     "nondaemon": "import threading, time\nthreading.Thread(target=lambda: time.sleep(1000)).start()",
+    "atexit_hang": "import atexit, time\natexit.register(time.sleep, 1000)",
 }
 
 
